@@ -259,6 +259,14 @@ def run_priority(ctx, countries):
                 if not wire.close_list(impl_keys, keys, 1e-12, 0.0):
                     ctx.disagree("priority:key", case, impl_keys, keys)
                 kcheck = impl_keys
+                # the documented priority (net kcals gained per slaughter hour, chicken and pig with their own meat kcals per head, the rest by size class),
+                # computed by the model from the species table and the meat dictionary: the serving order has to descend in it as well
+                spec = {nm: k for nm, k in zip(names0, keys)}
+                for x, y in zip(impl_order, impl_order[1:]):
+                    if spec[x] < spec[y] * (1 - 1e-9):
+                        ctx.violation("priority:not-descending", "%s is served before %s although its documented priority (net kcals per slaughter hour) is lower "
+                                      "(%r < %r)" % (x, y, spec[x], spec[y]), dict(case, served=impl_order, documented_keys=spec))
+                        break
             else:
                 kcheck = [float(objs[nm].approximate_feed_conversion) for nm in names0]
                 o = ctx.lean(["herd.sortDesc " + wire.fl(kcheck)])[0]
